@@ -198,6 +198,19 @@ def _process_item(kind, head, sub, meta, occ=None):
         if text2 != text:
             rec["drops"].append("D4: pub(crate)/pub(super) -> pub")
             text = text2
+    # 0. R5 (generic, always on): an irrefutable array pattern `let [a, b, _, _] = E;` (Verus: "slice patterns" unsupported) is read as
+    # `let __sp = E; let a = __sp[0]; let b = __sp[1];` — same values, same evaluation of E (once).  Only identifiers and `_` as elements.
+    def _r5(mm):
+        els = [e.strip() for e in mm.group(1).split(",")]
+        if not all(re.fullmatch(r"_|[A-Za-z_]\w*", e) for e in els):
+            return mm.group(0)
+        rec["rewrites"].append(f"R5 slice pattern: `{' '.join(mm.group(0).split())}` read as indexed lets")
+        outp = f"let __sp{mm.start()} = {mm.group(2)};"
+        for k, e in enumerate(els):
+            if e != "_":
+                outp += f" let {e} = __sp{mm.start()}[{k}];"
+        return outp
+    text = re.sub(r"let\s*\[([^\]\[;=]+)\]\s*=\s*([^;{}]+);", _r5, text)
     # 1. rewrites on the raw text
     for (d, tail, lines) in sub:
         mm = re.match(r"rewrite(?:x(\d+)|(\*))?$", d)
@@ -510,6 +523,48 @@ def _expand(path, meta):
                     segs.append(Seg(txt, "code", dict(rec=rec, off=0)))
                     nfn += 1
             meta["argslice_functions"] = nfn
+            i += 1
+        elif s.startswith("//@fnpairs"):
+            # D7: the two function-name tables of base/src/functions/mod.rs reduced to their (field, variant) IDENTIFIER pairs, in source order:
+            #   lookup_rows  <- the rows `field => Variant` of impl_function_lookup! { .. }  (the macro turns each row into
+            #                   `if self.field == key { return Some(Function::Variant); }`, tried top to bottom)
+            #   name_rows    <- the arms `Function::Variant => functions.field.clone()` of Function::to_localized_name
+            # fields are numbered by their position in `struct Functions` (language/mod.rs), variants by their position in `enum Function`.
+            rel = "base/src/functions/mod.rs"
+            src, m = repo_file(rel)
+            lsrc, lm = repo_file("base/src/language/mod.rs")
+            st = R.find_type(lsrc, lm, "Functions")
+            fields = re.findall(r"\bpub\s+((?:r#)?\w+)\s*:\s*String", lm[st["start"]:st["end"]])
+            en = R.find_type(src, m, "Function")
+            body = m[en["start"]:en["end"]]
+            variants = re.findall(r"^\s*(\w+)\s*,", body[body.index("{") + 1:], re.M)
+            raw_id = lambda x: x[2:] if x.startswith("r#") else x      # `r#char` and `char` are the same identifier
+            fields = [raw_id(x) for x in fields]
+            fid = {f: i for i, f in enumerate(fields)}
+            vid = {v: i for i, v in enumerate(variants)}
+            mi = m.find("impl_function_lookup!", m.find("macro_rules! impl_function_lookup") + 40)
+            ob = m.index("{", mi)
+            cb = R.match_bracket(m, ob)
+            rows = [(raw_id(x), y) for x, y in re.findall(r"((?:r#)?\w+)\s*=>\s*(\w+)\s*,", m[ob:cb])]
+            f = R.find_fn(src, m, "Function::to_localized_name")
+            arms = re.findall(r"Function::(\w+)\s*=>\s*functions\s*\.\s*((?:r#)?\w+)\s*\.\s*clone\s*\(\s*\)", m[f["body_open"]:f["end"]])
+            arms = [(a, raw_id(b)) for a, b in arms]
+            unknown = [x for (x, y) in rows if x not in fid] + [y for (x, y) in rows if y not in vid] + [a for (a, b) in arms if a not in vid] + [b for (a, b) in arms if b not in fid]
+            if unknown:
+                raise ExtractError(f"fnpairs: identifiers not found in struct Functions / enum Function: {unknown[:5]}")
+            def chain(ps):
+                return " else ".join(f"if x == {k} {{ {v} }}" for k, v in ps) + " else { -1 }"
+            txt = (f"pub open spec fn n_fields() -> int {{ {len(fields)} }}\npub open spec fn n_variants() -> int {{ {len(variants)} }}\n"
+                   "/// Functions::lookup as the macro expands it, `self.<field> == key` read as `x == <index of field>`: the variant index answered, -1 for None\n"
+                   f"pub open spec fn lookup_variant(x: int) -> int {{ {chain([(fid[x], vid[y]) for x, y in rows])} }}\n"
+                   "/// Function::to_localized_name: the index of the field whose content is printed for variant x, -1 if no arm\n"
+                   f"pub open spec fn name_field(x: int) -> int {{ {chain([(vid[a], fid[b]) for a, b in arms])} }}\n")
+            raw = src[ob:cb] + src[f["start"]:f["end"]]
+            rec = dict(kind="fnpairs", file=rel, item="impl_function_lookup! rows + Function::to_localized_name arms", byte_range=[ob, f["end"]], line=src.count("\n", 0, ob) + 1,
+                       sha256=hashlib.sha256(raw.encode()).hexdigest(), rewrites=[],
+                       drops=[f"D7: {len(rows)} lookup rows and {len(arms)} name arms reduced to (field index, variant index) pairs; {len(fields)} fields, {len(variants)} variants"])
+            meta["extracted"].append(rec)
+            segs.append(Seg(txt, "code", dict(rec=rec, off=0)))
             i += 1
         elif s.startswith("//@stub "):
             # R2: opaque callee declared from its REAL signature; following lines (until //@end) are the ASSUMED contract
